@@ -181,16 +181,23 @@ def column_info_from_node(root):
         if table_name is None or table_name not in ['a', 'b']:
             return None
         slice_root = get_field(root, 'slice')
-        if slice_root is None or not isinstance(slice_root, ast.Index):
+        if slice_root is None:
             return None
-        slice_val_root = get_field(slice_root, 'value')
         column_index = None
         column_name = None
-        if isinstance(slice_val_root, ast.Str):
-            column_name = get_field(slice_val_root, 's')
+        if hasattr(ast, 'Index') and isinstance(slice_root, ast.Index):
+            # Python < 3.9 wraps the subscript value into ast.Index
+            slice_root = get_field(slice_root, 'value')
+        if isinstance(slice_root, ast.Constant) and is_str6(get_field(slice_root, 'value')):
+            column_name = get_field(slice_root, 'value')
             table_name = None # We don't need table name for named fields
-        elif isinstance(slice_val_root, ast.Num):
-            column_index = get_field(slice_val_root, 'n') - 1
+        elif isinstance(slice_root, ast.Constant) and type(get_field(slice_root, 'value')) is int:
+            column_index = get_field(slice_root, 'value') - 1
+        elif hasattr(ast, 'Str') and isinstance(slice_root, ast.Str):
+            column_name = get_field(slice_root, 's')
+            table_name = None # We don't need table name for named fields
+        elif hasattr(ast, 'Num') and isinstance(slice_root, ast.Num):
+            column_index = get_field(slice_root, 'n') - 1
         else:
             return None
         if not PY3 and isinstance(column_name, str):
